@@ -454,6 +454,36 @@ def compare_one(rules, text, words):
     return None
 
 
+def uninlined(rules):
+    """metamorphic variant: no alternative is inlinable (every single-item alternative without action gets an
+    identity action, so neither seq_alts inlining nor the single-item shortcuts apply); same language, same values"""
+    import copy
+
+    def fix_alts(alts):
+        for a in alts:
+            items, action = a
+            for _, it in items:
+                fix_item(it)
+            nameable = [x for x in items if x[1][0] not in ("pos", "neg", "cut", "forced")]
+            if action is None and len(nameable) == 1 and len(items) == 1:
+                nameable[0][0] = "zz"
+                a[1] = "zz"
+
+    def fix_item(it):
+        if it[0] == "grp":
+            fix_alts(it[1])
+        elif it[0] in ("opt", "rep0", "rep1", "pos", "neg"):
+            fix_item(it[1])
+        elif it[0] == "gather":
+            fix_item(it[1])
+            fix_item(it[2])
+
+    out = copy.deepcopy(rules)
+    for _, _, alts in out:
+        fix_alts(alts)
+    return out
+
+
 def check_grammar(rec, rules, feats, budget, stream):
     text = peg.render(rules)
     status, TP = get_parser(text)
@@ -491,6 +521,29 @@ def check_grammar(rec, rules, feats, budget, stream):
         rec.evaluations += 1
         if r is not None and first_bad is None:
             first_bad = (words, r)
+    # metamorphic side-check: the generator's size optimisations never change behaviour
+    if first_bad is None:
+        alt_rules = uninlined(rules)
+        alt_text = peg.render(alt_rules)
+        if alt_text != text:
+            st2, TP2 = get_parser(alt_text)
+            status1, TP1 = get_parser(text)
+            if st2 == "ok" and status1 == "ok":
+                rec.count("metamorphic-pairs")
+                for words in inputs[: min(len(inputs), 3000)]:
+                    try:
+                        with watchdog(20):
+                            r1, r2 = run_gen(TP1, words), run_gen(TP2, words)
+                    except (SoftTimeout, RecursionError):
+                        continue
+                    except Exception as e:  # noqa: BLE001
+                        r1, r2 = ("exc", type(e).__name__), None
+                    rec.evaluations += 1
+                    if r1 != r2:
+                        first_bad = (words, ("metamorphic:inlined-vs-uninlined", {"input": words, "inlined": repr(r1)[:300], "uninlined": repr(r2)[:300], "grammar": text, "uninlined_grammar": alt_text}))
+                        break
+            elif st2 == "build-fail":
+                first_bad = ([], ("generator-crash-on-uninlined-variant", {"error": TP2, "grammar": alt_text}))
     ops = peg.operators(rules)
     labels = [f"op:{o}" for o in sorted(ops)] + [f"feature:{f}" for f in sorted(feats)] + [f"stream:{stream}"]
     if accepted == 0:
